@@ -4,6 +4,7 @@ package p07
 
 import (
 	"bytes"
+	"sync"
 	"encoding/hex"
 	"encoding/json"
 	"fmt"
@@ -187,6 +188,46 @@ func mkFetcher(tx *wire.MsgTx, spent []*wire.TxOut) *txscript.MultiPrevOutFetche
 
 // ---------------------------------------------------------------- exec (real code)
 
+// ectx records every transaction / spent-output list decoded for one case so that, after the
+// real code ran, the harness can check that the caller's inputs were not written to
+// (digests and midstates are values; the code under test works on copies).
+type ectx struct {
+	txs  []*wire.MsgTx
+	txS  []string
+	sps  [][]*wire.TxOut
+	spS  []string
+	skip bool // the case mutates its inputs on purpose
+}
+
+func (c *ectx) decTx(s string) *wire.MsgTx {
+	tx := decTx(s)
+	c.txs, c.txS = append(c.txs, tx), append(c.txS, s)
+	return tx
+}
+
+func (c *ectx) decSpent(s string) []*wire.TxOut {
+	sp := decSpent(s)
+	c.sps, c.spS = append(c.sps, sp), append(c.spS, s)
+	return sp
+}
+
+func (c *ectx) mutated() bool {
+	if c.skip {
+		return false
+	}
+	for i, tx := range c.txs {
+		if encTx(tx) != c.txS[i] {
+			return true
+		}
+	}
+	for i, sp := range c.sps {
+		if encSpent(sp) != c.spS[i] {
+			return true
+		}
+	}
+	return false
+}
+
 // VERIF_C07_DUMP=<file>: append "line\tanswer" for every executed case (debugging aid)
 var dumpFile *os.File
 
@@ -203,17 +244,22 @@ func (p P) Exec(line string) (out string) {
 			fmt.Fprintf(dumpFile, "%s\t%s\n", line, out)
 		}()
 	}
-	return p.exec(line)
+	c := &ectx{}
+	out = c.exec(line)
+	if c.mutated() {
+		return "mutated-input"
+	}
+	return out
 }
 
-func (P) exec(line string) string {
+func (c *ectx) exec(line string) string {
 	f := strings.Fields(line)
 	if len(f) < 2 || f[0] != "C07" {
 		return "bad-op"
 	}
 	switch f[1] {
 	case "legacy", "legacyapi":
-		tx := decTx(f[2])
+		tx := c.decTx(f[2])
 		idx := int(atoi(f[3]))
 		ht := txscript.SigHashType(uint32(atoi(f[4])))
 		script := unhx(f[5])
@@ -226,7 +272,7 @@ func (P) exec(line string) string {
 		}
 		return hex.EncodeToString(txscript.VerifCalcSignatureHash(script, ht, tx, idx))
 	case "legacyvec": // Bitcoin Core's sighash.json: digest must equal the published value
-		tx := decTx(f[2])
+		tx := c.decTx(f[2])
 		h, err := txscript.CalcSignatureHash(unhx(f[5]), txscript.SigHashType(uint32(atoi(f[4]))), tx, int(atoi(f[3])))
 		if err != nil {
 			return "err"
@@ -236,8 +282,8 @@ func (P) exec(line string) string {
 		}
 		return hex.EncodeToString(h)
 	case "wit", "witapi":
-		tx := decTx(f[2])
-		spent := decSpent(f[3])
+		tx := c.decTx(f[2])
+		spent := c.decSpent(f[3])
 		idx := int(atoi(f[4]))
 		ht := txscript.SigHashType(uint32(atoi(f[5])))
 		sub := unhx(f[6])
@@ -255,7 +301,7 @@ func (P) exec(line string) string {
 		}
 		return hex.EncodeToString(h)
 	case "witnil": // sigHashes == nil
-		tx := decTx(f[2])
+		tx := c.decTx(f[2])
 		h, err := txscript.VerifCalcWitnessSignatureHashRaw(unhx(f[5]), nil,
 			txscript.SigHashType(uint32(atoi(f[4]))), tx, int(atoi(f[3])), atoi(f[6]))
 		if err != nil {
@@ -263,8 +309,8 @@ func (P) exec(line string) string {
 		}
 		return hex.EncodeToString(h)
 	case "tapnil":
-		tx := decTx(f[2])
-		spent := decSpent(f[3])
+		tx := c.decTx(f[2])
+		spent := c.decSpent(f[3])
 		var o txscript.VerifTaprootOpts
 		if f[6] != "x" {
 			o.HasAnnex = true
@@ -283,8 +329,8 @@ func (P) exec(line string) string {
 		}
 		return hex.EncodeToString(h)
 	case "tapapi": // exported CalcTaprootSignatureHash / CalcTapscriptSignaturehash
-		tx := decTx(f[2])
-		spent := decSpent(f[3])
+		tx := c.decTx(f[2])
+		spent := c.decSpent(f[3])
 		idx := int(atoi(f[4]))
 		ht := txscript.SigHashType(uint32(atoi(f[5])))
 		fetcher := mkFetcher(tx, spent)
@@ -308,8 +354,8 @@ func (P) exec(line string) string {
 		return hex.EncodeToString(h)
 	case "tapopt": // exported taproot entry points, full option matrix
 		// tapopt <tx> <spent> <idx> <ht> <cache c|n> <fetcher m|k|g> <leaf x|ver:script> <opts>
-		tx := decTx(f[2])
-		spent := decSpent(f[3])
+		tx := c.decTx(f[2])
+		spent := c.decSpent(f[3])
 		idx := int(atoi(f[4]))
 		ht := txscript.SigHashType(uint32(atoi(f[5])))
 		var fetcher txscript.PrevOutputFetcher
@@ -365,18 +411,28 @@ func (P) exec(line string) string {
 		}
 		return hex.EncodeToString(h)
 	case "witapinil": // exported CalcWitnessSigHash with a nil midstate
-		tx := decTx(f[2])
+		tx := c.decTx(f[2])
 		h, err := txscript.CalcWitnessSigHash(unhx(f[5]), nil, txscript.SigHashType(uint32(atoi(f[4]))), tx,
 			int(atoi(f[3])), atoi(f[6]))
 		if err != nil {
 			return "err"
 		}
 		return hex.EncodeToString(h)
+	case "conc":
+		return execConc(f[2:])
+	case "sigconc":
+		return execSigConc(f[2:])
+	case "hashconc":
+		return execHashConc(c, f[2:])
+	case "midreuse":
+		return execMidReuse(c, f[2:])
+	case "sigevict":
+		return execSigEvict(f[2:])
 	case "hashcache":
-		return execHashCache(f[2:])
+		return execHashCache(c, f[2:])
 	case "tap":
-		tx := decTx(f[2])
-		spent := decSpent(f[3])
+		tx := c.decTx(f[2])
+		spent := c.decSpent(f[3])
 		idx := int(atoi(f[4]))
 		ht := txscript.SigHashType(uint32(atoi(f[5])))
 		var o txscript.VerifTaprootOpts
@@ -407,28 +463,9 @@ func (P) exec(line string) string {
 		return hx(r) + " 0"
 	case "sigcache":
 		c := txscript.NewSigCache(uint(atoi(f[2])))
-		var out []string
-		for _, op := range f[3:] {
-			p := strings.Split(op, ":")
-			var h chainhash.Hash
-			copy(h[:], unhx(p[1]))
-			switch p[0] {
-			case "a":
-				c.Add(h, unhx(p[2]), unhx(p[3]))
-			case "e":
-				if c.Exists(h, unhx(p[2]), unhx(p[3])) {
-					out = append(out, "1")
-				} else {
-					out = append(out, "0")
-				}
-			}
-		}
-		if len(out) == 0 {
-			return "-"
-		}
-		return strings.Join(out, ",")
+		return runSigHistory(c, f[3:])
 	case "sign":
-		return execSign(f[2:])
+		return execSign(c, f[2:])
 	case "helper": // observation made at generation time (did the signing helper return an error)
 		if len(f) != 8 {
 			return "bad-op"
@@ -436,6 +473,256 @@ func (P) exec(line string) string {
 		return f[7]
 	}
 	return "bad-op"
+}
+
+// sigcache history: a:<hash>:<sig>:<pk> Add, e:… Exists, x:<i> the caller overwrites the buffers it
+// passed to the i-th Add (entries are values: later answers must not change)
+func runSigHistory(c *txscript.SigCache, ops []string) string {
+	var out []string
+	var bufs [][2][]byte
+	for _, op := range ops {
+		p := strings.Split(op, ":")
+		switch p[0] {
+		case "a":
+			var h chainhash.Hash
+			copy(h[:], unhx(p[1]))
+			sig, pk := unhx(p[2]), unhx(p[3])
+			c.Add(h, sig, pk)
+			bufs = append(bufs, [2][]byte{sig, pk})
+		case "e":
+			var h chainhash.Hash
+			copy(h[:], unhx(p[1]))
+			if c.Exists(h, unhx(p[2]), unhx(p[3])) {
+				out = append(out, "1")
+			} else {
+				out = append(out, "0")
+			}
+		case "x":
+			i := int(atoi(p[1]))
+			if i < len(bufs) {
+				for _, b := range bufs[i] {
+					for j := range b {
+						b[j] ^= 0xff
+					}
+				}
+			}
+		}
+	}
+	if len(out) == 0 {
+		return "-"
+	}
+	return strings.Join(out, ",")
+}
+
+func splitBar(f []string) [][]string {
+	var out [][]string
+	cur := []string{}
+	for _, t := range f {
+		if t == "|" {
+			out = append(out, cur)
+			cur = []string{}
+		} else {
+			cur = append(cur, t)
+		}
+	}
+	return append(out, cur)
+}
+
+// parallel runs the functions in goroutines released together, three rounds; every round must give
+// the same answers (no hidden shared state between independent calls)
+func parallel(fs []func() string) string {
+	var first []string
+	for round := 0; round < 3; round++ {
+		res := make([]string, len(fs))
+		var wg sync.WaitGroup
+		gate := make(chan struct{})
+		for i := range fs {
+			wg.Add(1)
+			go func(i int) {
+				defer wg.Done()
+				defer func() {
+					if r := recover(); r != nil {
+						res[i] = "panic"
+					}
+				}()
+				<-gate
+				res[i] = fs[i]()
+			}(i)
+		}
+		close(gate)
+		wg.Wait()
+		if first == nil {
+			first = res
+		} else {
+			for i := range res {
+				if res[i] != first[i] {
+					return "nondeterministic"
+				}
+			}
+		}
+	}
+	return strings.Join(first, "|")
+}
+
+// conc <case> | <case> | …: independent digest cases computed concurrently
+func execConc(f []string) string {
+	subs := splitBar(f)
+	fs := make([]func() string, len(subs))
+	for i, sub := range subs {
+		line := "C07 " + strings.Join(sub, " ")
+		fs[i] = func() string {
+			first := ""
+			for rep := 0; rep < 8; rep++ {
+				c := &ectx{}
+				out := c.exec(line)
+				if c.mutated() {
+					return "mutated-input"
+				}
+				if rep == 0 {
+					first = out
+				} else if out != first {
+					return "nondeterministic"
+				}
+			}
+			return first
+		}
+	}
+	return parallel(fs)
+}
+
+// sigconc <cap> <history> | <history> …: ONE SigCache shared by goroutines working on disjoint keys
+func execSigConc(f []string) string {
+	c := txscript.NewSigCache(uint(atoi(f[0])))
+	subs := splitBar(f[1:])
+	res := make([]string, len(subs))
+	var wg sync.WaitGroup
+	gate := make(chan struct{})
+	for i := range subs {
+		wg.Add(1)
+		go func(i int) {
+			defer wg.Done()
+			<-gate
+			res[i] = runSigHistory(c, subs[i])
+		}(i)
+	}
+	close(gate)
+	wg.Wait()
+	return strings.Join(res, "|")
+}
+
+// hashconc <n> <tx spent>*n <ops> | <ops> …: ONE HashCache shared by goroutines, each on its own transactions
+func execHashConc(ec *ectx, f []string) string {
+	n := int(atoi(f[0]))
+	var txs []*wire.MsgTx
+	var sps [][]*wire.TxOut
+	var ids []chainhash.Hash
+	for i := 0; i < n; i++ {
+		txs = append(txs, ec.decTx(f[1+2*i]))
+		sps = append(sps, ec.decSpent(f[2+2*i]))
+		ids = append(ids, txs[i].TxHash())
+	}
+	c := txscript.NewHashCache(4)
+	subs := splitBar(f[1+2*n:])
+	res := make([]string, len(subs))
+	var wg sync.WaitGroup
+	gate := make(chan struct{})
+	for i := range subs {
+		wg.Add(1)
+		go func(i int) {
+			defer wg.Done()
+			<-gate
+			var out []string
+			for _, op := range subs[i] {
+				p := strings.Split(op, ":")
+				k := int(atoi(p[1]))
+				switch p[0] {
+				case "a":
+					c.AddSigHashes(txs[k], mkFetcher(txs[k], sps[k]))
+				case "g":
+					if sh, ok := c.GetSigHashes(&ids[k]); ok {
+						out = append(out, showMid(sh))
+					} else {
+						out = append(out, "none")
+					}
+				case "c":
+					if c.ContainsHashes(&ids[k]) {
+						out = append(out, "1")
+					} else {
+						out = append(out, "0")
+					}
+				case "p":
+					c.PurgeSigHashes(&ids[k])
+				}
+			}
+			if len(out) == 0 {
+				res[i] = "-"
+			} else {
+				res[i] = strings.Join(out, ",")
+			}
+		}(i)
+	}
+	close(gate)
+	wg.Wait()
+	return strings.Join(res, "|")
+}
+
+// midreuse <tx1> <sp1> <tx2> <sp2> <idx> <ht>: midstates are values. Compute sh1, then sh2 for another
+// transaction, scribble over transaction 1, and observe sh1 again, a BIP143 and a BIP341 digest made with
+// sh1 on a pristine copy of transaction 1, and sh2.
+func execMidReuse(ec *ectx, f []string) string {
+	ec.skip = true
+	tx1, sp1 := ec.decTx(f[0]), ec.decSpent(f[1])
+	tx2, sp2 := ec.decTx(f[2]), ec.decSpent(f[3])
+	idx := int(atoi(f[4]))
+	ht := txscript.SigHashType(uint32(atoi(f[5])))
+	keep, keepSp := decTx(f[0]), decSpent(f[1])
+	sh1 := txscript.NewTxSigHashes(tx1, mkFetcher(tx1, sp1))
+	sh2 := txscript.NewTxSigHashes(tx2, mkFetcher(tx2, sp2))
+	scribble(tx1, sp1)
+	_ = txscript.NewTxSigHashes(tx1, mkFetcher(tx1, sp1))
+	d := func(h []byte, err error) string {
+		if err != nil {
+			return "err"
+		}
+		return hex.EncodeToString(h)
+	}
+	w := d(txscript.VerifCalcWitnessSignatureHashRaw([]byte{0xac}, sh1, ht, keep, idx, 12345))
+	t := d(txscript.VerifCalcTaprootSignatureHashRaw(sh1, ht, keep, idx, mkFetcher(keep, keepSp), txscript.VerifTaprootOpts{}))
+	return showMid(sh1) + "," + w + "," + t + "," + showMid(sh2)
+}
+
+// sigevict <cap> <seed> <n>: a small cache that evicts (randomly). Only soundness is observable: every
+// hit is a triple that was added before. Go-only assertion.
+func execSigEvict(f []string) string {
+	capn := uint(atoi(f[0]))
+	r := core.NewRand(uint64(atoi(f[1])))
+	n := int(atoi(f[2]))
+	c := txscript.NewSigCache(capn)
+	added := map[string]bool{}
+	hits := 0
+	for i := 0; i < n; i++ {
+		var h chainhash.Hash
+		h[0] = byte(r.Intn(12))
+		sig := []byte{byte(r.Intn(3))}
+		pk := []byte{byte(r.Intn(2))}
+		key := string(h[:1]) + string(sig) + string(pk)
+		if r.Bool() {
+			c.Add(h, sig, pk)
+			added[key] = true
+			if capn > 0 && !c.Exists(h, sig, pk) {
+				return "lost-fresh-entry"
+			}
+		} else if c.Exists(h, sig, pk) {
+			hits++
+			if !added[key] {
+				return "unsound"
+			}
+		}
+	}
+	if capn == 0 && hits > 0 {
+		return "unsound"
+	}
+	return "sound"
 }
 
 // hashcache ops: a:<k> AddSigHashes(tx k), g:<k> GetSigHashes(txid k), c:<k> ContainsHashes, p:<k> Purge.
@@ -447,20 +734,22 @@ func showMid(sh *txscript.TxSigHashes) string {
 		hex.EncodeToString(sh.HashInputScriptsV1[:]) + hex.EncodeToString(sh.HashInputAmountsV1[:])
 }
 
-func execHashCache(f []string) string {
+func execHashCache(ec *ectx, f []string) string {
 	n := int(atoi(f[0]))
 	var txs []*wire.MsgTx
 	var sps [][]*wire.TxOut
+	var ids []chainhash.Hash
 	for i := 0; i < n; i++ {
-		txs = append(txs, decTx(f[1+2*i]))
-		sps = append(sps, decSpent(f[2+2*i]))
+		txs = append(txs, ec.decTx(f[1+2*i]))
+		sps = append(sps, ec.decSpent(f[2+2*i]))
+		ids = append(ids, txs[i].TxHash())
 	}
 	c := txscript.NewHashCache(10)
 	var out []string
 	for _, op := range f[1+2*n:] {
 		p := strings.Split(op, ":")
 		k := int(atoi(p[1]))
-		txid := txs[k].TxHash()
+		txid := ids[k]
 		switch p[0] {
 		case "a":
 			c.AddSigHashes(txs[k], mkFetcher(txs[k], sps[k]))
@@ -479,12 +768,41 @@ func execHashCache(f []string) string {
 			}
 		case "p":
 			c.PurgeSigHashes(&txid)
+		case "m": // the caller scribbles over transaction k after it was added: cached midstates are values
+			ec.skip = true
+			scribble(txs[k], sps[k])
 		}
 	}
 	if len(out) == 0 {
 		return "-"
 	}
 	return strings.Join(out, ",")
+}
+
+// scribble writes to every byte the sighash code could have kept a reference to
+func scribble(tx *wire.MsgTx, sp []*wire.TxOut) {
+	tx.Version ^= 0x55
+	tx.LockTime ^= 0x55
+	for _, in := range tx.TxIn {
+		in.PreviousOutPoint.Hash[3] ^= 0xff
+		in.PreviousOutPoint.Index ^= 1
+		in.Sequence ^= 0x10
+		for i := range in.SignatureScript {
+			in.SignatureScript[i] ^= 0xff
+		}
+	}
+	for _, o := range tx.TxOut {
+		o.Value ^= 0x7
+		for i := range o.PkScript {
+			o.PkScript[i] ^= 0xff
+		}
+	}
+	for _, o := range sp {
+		o.Value ^= 0x7
+		for i := range o.PkScript {
+			o.PkScript[i] ^= 0xff
+		}
+	}
 }
 
 // ---------------------------------------------------------------- generation
@@ -730,9 +1048,120 @@ func genVectors(g *core.Gen) {
 	}
 }
 
+// one small digest / removal case (tokens after "C07") for the concurrent and reuse classes
+func randSmallCase(r *core.Rand) string {
+	nIn, nOut := 1+r.Intn(3), r.Intn(3)
+	tx, spent := randTx(r, nIn, nOut)
+	for i, in := range tx.TxIn {
+		in.PreviousOutPoint.Hash[0] = byte(i)
+	}
+	idx := r.Intn(nIn)
+	hts := []uint32{0, 1, 2, 3, 0x81, 0x82, 0x83}
+	ht := hts[r.Intn(len(hts))]
+	switch r.Intn(6) {
+	case 0:
+		return fmt.Sprintf("legacy %s %d %d %s", encTx(tx), idx, ht, hx(randScriptCode(r, randSig(r), false)))
+	case 1:
+		forceKind(r, spent, false)
+		return fmt.Sprintf("wit %s %s %d %d %s %d", encTx(tx), encSpent(spent), idx, ht, hx(randScriptCode(r, randSig(r), false)), int64(r.U64()%1000000))
+	case 2:
+		forceKind(r, spent, false)
+		return fmt.Sprintf("witapi %s %s %d %d %s %d", encTx(tx), encSpent(spent), idx, ht, hx(append([]byte{0, 0x14}, r.Bytes(20)...)), int64(r.U64()%1000000))
+	case 3:
+		forceKind(r, spent, true)
+		return fmt.Sprintf("tap %s %s %d %d %s %s:%d", encTx(tx), encSpent(spent), idx, ht, hx(append([]byte{0x50}, r.Bytes(3)...)), hx(r.Bytes(32)), r.U32())
+	case 4:
+		forceKind(r, spent, true)
+		return fmt.Sprintf("tapopt %s %s %d %d c m %d:%s B.%d.%s,A.%s", encTx(tx), encSpent(spent), idx, ht, 0xc0, hx(randScriptCode(r, randSig(r), false)), r.Intn(5), hx(r.Bytes(32)), hx(r.Bytes(r.Intn(4))))
+	}
+	sig := randSig(r)
+	return fmt.Sprintf("rmdata %s %s", hx(randScriptCode(r, sig, false)), hx(sig))
+}
+
+func genHardening(g *core.Gen) {
+	r := g.R
+	// ---- independent digest computations running concurrently (no hidden shared state)
+	for k := 0; k < g.N(120, 2500); k++ {
+		n := 8 + r.Intn(5)
+		subs := make([]string, n)
+		for i := range subs {
+			subs[i] = randSmallCase(r)
+		}
+		g.Case("concurrent-digests", true, "C07 conc "+strings.Join(subs, " | "))
+	}
+	// ---- one SigCache shared by 8..12 goroutines (disjoint keys), with caller buffer overwrites
+	for k := 0; k < g.N(150, 3000); k++ {
+		n := 8 + r.Intn(5)
+		subs := make([]string, n)
+		for i := range subs {
+			hs := [][]byte{r.Bytes(32), r.Bytes(32)}
+			hs[0][0], hs[1][0] = byte(i), byte(i) // keys of goroutine i
+			ss := [][]byte{r.Bytes(3), r.Bytes(3)}
+			ps := [][]byte{r.Bytes(2), r.Bytes(2)}
+			nops := 3 + r.Intn(8)
+			ops := make([]string, nops)
+			adds := 0
+			for j := range ops {
+				switch r.Intn(5) {
+				case 0, 1:
+					ops[j] = fmt.Sprintf("a:%s:%s:%s", hx(hs[r.Intn(2)]), hx(ss[r.Intn(2)]), hx(ps[r.Intn(2)]))
+					adds++
+				case 2:
+					ops[j] = fmt.Sprintf("x:%d", r.Intn(adds+1))
+				default:
+					ops[j] = fmt.Sprintf("e:%s:%s:%s", hx(hs[r.Intn(2)]), hx(ss[r.Intn(2)]), hx(ps[r.Intn(2)]))
+				}
+			}
+			subs[i] = strings.Join(ops, " ")
+		}
+		g.Case("concurrent-sigcache", true, "C07 sigconc 1000 "+strings.Join(subs, " | "))
+	}
+	// ---- one HashCache shared by 8 goroutines, each on its own transaction
+	for k := 0; k < g.N(100, 2000); k++ {
+		n := 8
+		var toks []string
+		for i := 0; i < n; i++ {
+			tx, spent := randTx(r, 1+r.Intn(3), r.Intn(3))
+			tx.LockTime = uint32(k*16 + i) // distinct txids
+			if r.Bool() {
+				forceKind(r, spent, true)
+			}
+			toks = append(toks, encTx(tx), encSpent(spent))
+		}
+		subs := make([]string, n)
+		for i := range subs {
+			nops := 3 + r.Intn(8)
+			ops := make([]string, nops)
+			for j := range ops {
+				ops[j] = fmt.Sprintf("%s:%d", []string{"a", "a", "g", "g", "g", "c", "p"}[r.Intn(7)], i)
+			}
+			subs[i] = strings.Join(ops, " ")
+		}
+		g.Case("concurrent-hashcache", true, fmt.Sprintf("C07 hashconc %d %s %s", n, strings.Join(toks, " "), strings.Join(subs, " | ")))
+	}
+	// ---- midstates are values: reuse across transactions, caller scribbles over the first one
+	for k := 0; k < g.N(300, 6000); k++ {
+		tx1, sp1 := randTx(r, 1+r.Intn(3), r.Intn(3))
+		tx2, sp2 := randTx(r, 1+r.Intn(3), r.Intn(3))
+		for i, in := range tx1.TxIn {
+			in.PreviousOutPoint.Hash[0] = byte(i)
+		}
+		if r.Bool() {
+			forceKind(r, sp1, r.Bool())
+		}
+		ht := []uint32{0, 1, 2, 3, 0x81, 0x82, 0x83}[r.Intn(7)]
+		g.Case("midstate-reuse", true, fmt.Sprintf("C07 midreuse %s %s %s %s %d %d", encTx(tx1), encSpent(sp1), encTx(tx2), encSpent(sp2), r.Intn(len(tx1.TxIn)), ht))
+	}
+	// ---- evicting signature caches: soundness only (Go-only assertion)
+	for k := 0; k < g.N(60, 1500); k++ {
+		g.Case("sigcache-evicting", true, fmt.Sprintf("C07 sigevict %d %d %d", r.Pick(0, 1, 2, 3, 5, 8), r.U32(), 200+r.Intn(300)))
+	}
+}
+
 func (P) Generate(g *core.Gen) {
 	r := g.R
 	genVectors(g)
+	genHardening(g)
 
 	// ---- legacy: all 256 hash types x every index (incl. out of range) on a few shapes
 	for k := 0; k < g.N(4, 30); k++ {
@@ -1048,12 +1477,20 @@ func (P) Generate(g *core.Gen) {
 		}
 		nops := 2 + r.Intn(8)
 		adds := 0
+		scribbled := map[int]bool{}
 		for i := 0; i < nops; i++ {
-			o := []string{"a", "a", "g", "g", "g", "c", "p"}[r.Intn(7)]
+			o := []string{"a", "a", "g", "g", "g", "c", "p", "m"}[r.Intn(8)]
+			t := r.Intn(n)
+			if o == "a" && scribbled[t] {
+				o = "g"
+			}
 			if o == "a" {
 				adds++
 			}
-			toks = append(toks, fmt.Sprintf("%s:%d", o, r.Intn(n)))
+			if o == "m" {
+				scribbled[t] = true
+			}
+			toks = append(toks, fmt.Sprintf("%s:%d", o, t))
 		}
 		g.Case("hashcache", adds > 0, fmt.Sprintf("C07 hashcache %d %s", n, strings.Join(toks, " ")))
 	}
@@ -1085,6 +1522,9 @@ func (P) Generate(g *core.Gen) {
 				adds++
 			}
 			ops[i] = fmt.Sprintf("%s:%s:%s:%s", k, hx(hs[r.Intn(3)]), hx(ss[r.Intn(3)]), hx(ps[r.Intn(2)]))
+			if adds > 0 && r.Chance(1, 6) { // the caller overwrites buffers it passed to an earlier Add
+				ops[i] = fmt.Sprintf("x:%d", r.Intn(adds))
+			}
 		}
 		capn := int(r.Pick(0, 4, 10, 100)) // 3 distinct keys at most: Add evicts only when len+1 > cap
 		g.Case("sigcache", adds > 0, fmt.Sprintf("C07 sigcache %d %s", capn, strings.Join(ops, " ")))
